@@ -122,6 +122,14 @@ def expected_default(p):
 
 
 # ------------------------------------------------------------------ generic checks
+def tree(node):
+    """canonical tree text: the wire form of PyAst (positions, contexts and 3.12's empty type_params ignored)"""
+    try:
+        return dumps(astwire.enc_stmt(node))
+    except Exception:  # noqa
+        return ast.dump(node)
+
+
 def validity_checks(node):
     """-> list of (clause, ok, what)"""
     out = []
@@ -145,7 +153,7 @@ def validity_checks(node):
     out.append(("exec", True, ""))
     try:
         back = ast.parse(src).body[0]
-        ok = ast.dump(back) == ast.dump(node)
+        ok = tree(back) == tree(node)
         out.append(("reparse", ok, "" if ok else "unparse/re-parse gives a different tree"))
     except Exception as e:  # noqa
         out.append(("reparse", False, "re-parse raised %s" % type(e).__name__))
@@ -156,7 +164,7 @@ def validity_checks(node):
         try:
             m.emit.file(copy.deepcopy(node), fn, mode="wt", skip_black=skip_black)
             back = ast.parse(open(fn).read()).body[0]
-            ok = ast.dump(back) == ast.dump(ast.parse(src).body[0])
+            ok = tree(back) == tree(ast.parse(src).body[0])
             out.append(("file-black" if not skip_black else "file", ok, "" if ok else "file text parses to a different tree"))
         except Exception as e:  # noqa
             out.append(("file-black" if not skip_black else "file", False, "emit.file raised %s" % type(e).__name__))
@@ -314,6 +322,10 @@ def gen_cases(rng, n):
         spec = {"name": "f", "type": "static", "doc": ir["doc"],
                 "params": OrderedDict((k, dict(v)) for k, v in ir["params"].items()),
                 "returns": None if ir["returns"] is None else OrderedDict((k, dict(v)) for k, v in ir["returns"].items())}
+        if rng.random() < 0.06 and spec["params"]:
+            # what parse.function leaves for an unannotated, undocumented argument
+            k0 = rng.choice(list(spec["params"]))
+            spec["params"][k0] = {"doc": None, "typ": None, **({"default": 5} if rng.random() < 0.5 else {})}
         if kind == "function":
             o = {"function_name": "f", "function_type": rng.choice(["static", "self", "cls"]),
                  "word_wrap": rng.random() < 0.5, "emit_default_doc": rng.random() < 0.5,
